@@ -245,7 +245,7 @@ def _std_contracts():
             (r"<impl stun_rs::Encode for (u16|u32|u64)>::encode$", c_int_enc), (r"<impl stun_rs::Decode<'\w+> for (u16|u32|u64)>::decode$", c_int_dec),
             (r"<stun_rs::(types::AddressFamily|protocols::ProtocolNumber) as stun_rs::Encode>::encode$", c_fixed1),
             (r"common::check_buffer_boundaries$", c_cbb), (r"common::fill_padding_value$", c_cbb),
-            (r"slice::<impl \[.*\]>::get(::<.*>)?$", c_get),
+            (LP.SLICE_GET_RX, LP.c_slice_get),
             (r" as stun_rs::Encode>::encode$|<impl stun_rs::Encode for .*>::encode$", c_enc)]
 
 
@@ -582,6 +582,12 @@ def check_sites(ctx, prog, rule, prop, seen, config_label="", exclude_fn=None, o
                         alt = [k_ for k_ in budget if k_[0] == o and k_[1].startswith("unwrap|")]
                         if len(alt) == 1:
                             be, bkey = budget.get(alt[0]), alt[0]
+        if be is None and und and sk.startswith("unwrap|"):
+            # the same reviewed "cannot fail" conversion spelled with the other unwrap (`buf[..20].try_into().unwrap()` ->
+            # `buf.first_chunk().unwrap()`): the function's single unwrap entry is shared, its count still bounds the total
+            alt = [k_ for k_ in budget if k_[0] == fnp and k_[1].startswith("unwrap|")]
+            if len(alt) == 1:
+                be, bkey = budget.get(alt[0]), alt[0]
         allowed = be["max"] if be is not None and (not be.get("props") or prop in be["props"]) else 0
         allowed = max(0, allowed - spent.get(bkey, 0))
         if be is None and und and any(sk.startswith(k) for k in _LIN_KINDS):
